@@ -129,10 +129,60 @@ def expected_image(mj, layouts, th, k_rt):
     return pos, end
 
 
-def native_encase(ctx, src, names, label):
+DUAL = '''struct Inst { @location(0) scale: f32, @location(1) color: vec4<f32>, @location(2) dir: vec3<f32>, @location(3) uv: vec2<u32>, @location(4) w: vec4<i32> }
+struct Wrap { n: u32, insts: array<Inst, 2> }
+@group(0) @binding(0) var<uniform> one: Inst;
+@group(0) @binding(1) var<storage, read> many: Wrap;
+@vertex fn vs(i: Inst) -> @builtin(position) vec4<f32> { return i.color; }
+@fragment fn fs() -> @location(0) vec4<f32> { return one.color; }
+'''
+
+
+def dual_role_check(ctx, seen):
+    """a struct that is a vertex input AND host-shareable, under every combination of the other switches (Glam + encase fixed)"""
+    S, c = ctx.S, ctx.S.conv
+    module = S.module(DUAL)
+    o = {k: z3.Bool(k) for k in ('derive_bytemuck_vertex', 'derive_bytemuck_host_shareable', 'derive_serde')}
+    res = ctx.explore('structs/glam+encase/vertex-and-host struct x other switches',
+                      lambda it: it.call('structs', [mkref(module), write_options(S.conv, matrix_vector_types='Glam', derive_encase_host_shareable=True, **o)]),
+                      anchors=['structs', 'rust_struct', 'rust_type'])
+    want = {'scale': ('scalar', 'Float', []), 'color': ('glam', 'Float', [4]), 'dir': ('glam', 'Float', [3]), 'uv': ('glam', 'Uint', [2]), 'w': ('glam', 'Sint', [4])}
+    for pc, kind, out, _ in res:
+        ctx.queries['discharged'] += 1
+        m = ctx.witness(pc)
+        opts = {k: model_value(m, v) for k, v in o.items()}
+        if kind == 'panic':
+            ctx.queries['unsat'] += 1
+            continue
+        sts, order = decode_structs(out.toks)
+        inst = sts.get('Inst')
+        bad = None
+        if inst is None or 'encase::ShaderType' not in inst['derives']:
+            bad = 'Inst does not derive encase::ShaderType'
+        else:
+            for f in inst['fields']:
+                sem = decode_type(f[2])
+                r, k, dims = want[f[0]]
+                if not (sem.get('repr') == r and sem.get('kind') == k and sem.get('dims') == dims and sem.get('width') == 4):
+                    bad = f'member {f[0]} is emitted as `{T.text(f[2])}`, whose encase class is not that of its WGSL type'
+                    break
+        if bad is None:
+            ctx.queries['unsat'] += 1
+            continue
+        ctx.queries['sat'] += 1
+        key = 'C10/dual-role struct'
+        seen[key] = seen.get(key, 0) + 1
+        if seen[key] > 1:
+            continue
+        bad_n, n = native_encase(ctx, DUAL, ['Inst', 'Wrap'], 'dual', dict(OPTS, **opts))
+        ctx.report(key, f'{bad} with options {opts}', {'wgsl': DUAL, 'options': dict(OPTS, **opts), 'encase': bad_n}, bool(bad_n), bad_n)
+    return res
+
+
+def native_encase(ctx, src, names, label, opts=None):
     """compile the REAL generator's structs against real encase+glam, write probes, compare with naga's layout"""
     S = ctx.S
-    kind, toks, text_ = ctx.gen_tokens(src, OPTS)
+    kind, toks, text_ = ctx.gen_tokens(src, opts or OPTS)
     if kind != 'ok':
         if label == 'corpus':
             raise Inconclusive(f'corpus does not generate: {kind} {toks}')
@@ -145,7 +195,11 @@ def native_encase(ctx, src, names, label):
     # struct items re-rendered from the generator's own tokens
     for it in T.items(toks):
         if it.kind == 'struct' and it.name in sts and it.name in th:
-            out.append(T.text(it.toks).replace("' ", "'"))
+            txt = T.text(it.toks).replace("' ", "'")
+            # only encase is linked into the helper crate: other derives are irrelevant to the byte image
+            for dn in ('bytemuck :: Pod', 'bytemuck :: Zeroable', 'serde :: Serialize', 'serde :: Deserialize'):
+                txt = txt.replace(dn + ' ,', '').replace(', ' + dn, '').replace(dn, '')
+            out.append(txt)
     out.append('fn nf(c: &mut u32) -> f32 { *c += 1; *c as f32 }\nfn nu(c: &mut u32) -> u32 { *c += 1; *c }\nfn ni(c: &mut u32) -> i32 { *c += 1; -(*c as i32) }')
     ks = {}
     for name in order:
@@ -401,6 +455,7 @@ def run(ctx):
             ctx.report(key, f'{failed[0]}: member types {spell}', det, rep, det)
         oks = [r for r in res if r[1] == 'ok']
         ctx.vacuity_witness('encase class assertions reachable', oks[0][0])
+    dual_role_check(ctx, seen)
     # ---------------------------------------------------------------- (2) layout lemma in z3
     for n in ([2, 3] if quick else [2, 3, 4]):
         plain, expl = layout_lemma(ctx, n)
@@ -414,6 +469,12 @@ def run(ctx):
     ctx.extra['layout_lemma'] = 'unsat (layouts agree) for every struct shape in the bound without explicit attributes; sat with explicit @size/@align (known finding)'
     # ---------------------------------------------------------------- (3) native corpus through real encase + glam
     names = ['S1', 'S2', 'S3', 'S4', 'S5', 'S7', 'S8', 'S9', 'S10']
+    for extra in ({'derive_bytemuck_vertex': True}, {'derive_bytemuck_vertex': True, 'derive_serde': True}):
+        bad2, n2 = native_encase(ctx, DUAL, ['Inst', 'Wrap'], 'dual', dict(OPTS, **extra))
+        if bad2:
+            ctx.report('C10/native-dual-role', f'byte image differs from the WGSL layout with options {extra}: {bad2[0]}', {'wgsl': DUAL, 'options': dict(OPTS, **extra), 'encase': bad2}, True, bad2)
+        else:
+            ctx.replayed_ok += n2
     bad, n = native_encase(ctx, CORPUS, names, 'corpus')
     ctx.sample({'structs written through real encase + glam and compared with naga layout': n, 'mismatches': bad})
     if bad:
